@@ -32,7 +32,7 @@ reg(P(
 
 reg(P(
     "C09", "Compilation is total: any input yields success or a parser error",
-    [("A1", ALL), ("A2", ALL), ("B1", ALL), ("B6", ALL), ("A12", ALL), ("A13", ALL), ("A8", {"pairing", "filepath"}), ("C9", ALL), ("T1", ALL), ("C1", {"imports"}), ("V1", {"kinds"})],
+    [("A1", ALL), ("A2", ALL), ("B1", ALL), ("B6", ALL), ("A12", ALL), ("A13", ALL), ("A8", {"pairing", "filepath"}), ("C9", ALL), ("T1", ALL), ("C1", {"imports", "options-total"}), ("V1", {"kinds"})],
     "no exception class other than ParserError/OSError escapes parse(), none escapes lint(), none other than RendererError/OSError escapes render() for the four renderers (A1 over an RTA call graph with handler contexts; discharges by dominating guards, exhaustive dispatch A2, index/grammar consistency B1, typestate A12/A13, option table C9, and the triaged invariants of beliefs.json); p_error/t_error always raise (B6); every loop has a strictly advancing counter or ranges over a finite collection, recursion descends the acyclic type graph, and the import recursion is cut by a cycle check that compares files with samefile() before the child is parsed (T1, C1 imports part).",
     "RecursionError / memory / time on pathologically large accepted schemas; behaviour inside ply; UnicodeDecodeError while reading a file (input is text).",
 ))
@@ -46,21 +46,21 @@ reg(P(
 
 reg(P(
     "C13", "Constants evaluate arithmetically and reach every target language intact",
-    [("B4", ALL), ("V1", {"constant"}), ("C6", ALL), ("A1", {"parse"}), ("A7", {"key"})],
+    [("B4", ALL), ("V1", {"constant"}), ("C6", ALL), ("A1", {"parse"}), ("A7", {"key"}), ("B5", ALL)],
     "precedence/associativity table, operand order and integer division of the four binary actions, grouping, literal decoding, escape table, token order (B4); the evaluated value is what Constant.value, Array.cap and option values receive (V1); bool/int literal tables per language and string constants reach quoted templates only through an escaping function; the three constant-emission templates take value and type from the same constant (C6); no memoised function on the way tells apart values its memo key equates (True / 1, False / 0) (A7 part key).",
     "numeric results are not computed; Python's int arithmetic is trusted.",
 ))
 
 reg(P(
     "C17", "-O and -F restrict what is generated without altering it",
-    [("A9", ALL), ("B3", {"extensible-marker"}), ("A5", {"filter-needs-O", "parse-guard", "fatal"}), ("F4", ALL), ("A7", {"key"})],
+    [("A9", ALL), ("B3", {"extensible-marker"}), ("A5", {"filter-needs-O", "parse-guard", "fatal"}), ("F4", ALL), ("A7", {"key"}), ("A10", ALL)],
     "traditional mode reaches every Parser including import children; the extensible marker is derivable only through the guarded production; language capability is checked at renderer construction; -F without -O hits fatal before render; the -F list only selects encoder/decoder function blocks with one shared predicate and never flows into a template; data-structure dispatchers ignore it (F4).",
     "textual identity of two compiler runs is not observed; it follows from F4's non-interference only as far as the template abstraction goes.",
 ))
 
 reg(P(
     "C18", "Compilation is deterministic",
-    [("A10", ALL), ("A7", ALL), ("A6", ALL), ("A8", {"filepath", "pairing"})],
+    [("A10", ALL), ("A7", ALL), ("A6", ALL), ("A8", {"filepath", "pairing"}), ("C5", {"outfile"})],
     "no nondeterminism source (set iteration, hash(), id(), cwd/env/time/random) on the output path outside the documented output-directory default; no module/class-level mutable state written after import; caches are per node and hold it strongly; lint does not write the AST; shared parser stacks are restored by try/finally and paired push/pop.",
     "ply and CPython are trusted to be deterministic.",
 ))
@@ -95,7 +95,7 @@ reg(P(
 
 reg(P(
     "C15", "Generated API names follow the documented scheme",
-    [("C5", ALL), ("A7", {"key"})],
+    [("C5", ALL), ("A7", {"key"}), ("F2", ALL)],
     "each effective entry of the three case_style_mapping() tables lies in the set the scheme allows for that (language, kind): identity on style-guide names, except the fixed transformations C message -> pascal, Python message -> keep, Go struct field -> pascal; style names resolve to the right converter functions; nested names are prefix + enclosing names outermost first + own name; Encode/Decode/Json/BYTES_LENGTH_/BYTES_LENGTH/encode/decode/Size/JSON-tag templates; output file name and extensions; the C name prefix flows only into the definition-name builder.",
     "behaviour of pascal_case / snake_case / upper_case on arbitrary words (assumed: keep is the identity, pascal on PascalCase, snake on snake_case, upper and (snake, upper) on UPPER_SNAKE).",
     ["keep_case/pascal_case/snake_case/upper_case are the identity on names of their own style"],
@@ -138,14 +138,14 @@ reg(P(
 
 reg(P(
     "C10", "Every accepted schema yields code the target toolchains accept (narrow: necessary structural conditions)",
-    [("F2", ALL), ("F1", ALL), ("A2", ALL), ("A1", {"render"}), ("A13", ALL), ("F6", ALL), ("F6b", ALL), ("F7", ALL), ("F8", ALL), ("C5", {"common", "owner", "qualifier", "binding"}), ("F9", ALL), ("F10", ALL), ("A7", {"key"})],
+    [("F2", ALL), ("F1", ALL), ("A2", ALL), ("A1", {"render"}), ("A13", ALL), ("F6", ALL), ("F6b", ALL), ("F7", ALL), ("F8", ALL), ("C5", {"common", "owner", "qualifier", "binding", "outfile"}), ("F9", ALL), ("F10", ALL), ("A7", {"key"})],
     "definitions are emitted children first in declaration order for the bound proto (F2); each block class pushes balanced brackets and #if/#endif on every path (F1); rendering raises no internal error: exhaustive dispatch, abstract coverage, render-context and push_string discipline (A2, A1 render part, A13); internal helper-name templates are uniquely decodable (F6); include/import statements name the file the compiler generates (F7).",
     "whether gcc, g++, CPython or Go accept the output (that needs the output); struct layout equality in C++; reserved words.",
 ))
 
 reg(P(
     "C12", "The wire format depends only on field numbers and resolved types",
-    [("F3", ALL), ("A4", ALL), ("D5", {"ast"}), ("D7", ALL), ("EC3", ALL), ("V1", {"reference"}), ("D2", ALL), ("D6", {"py", "go"}), ("B4", ALL), ("R1", ALL), ("D3", ALL), ("A7", {"key"}), ("B5", ALL), ("F6", ALL)],
+    [("F3", ALL), ("A4", ALL), ("D5", {"ast"}), ("D7", ALL), ("EC3", ALL), ("V1", {"reference"}), ("D2", ALL), ("D6", {"py", "go"}), ("B4", ALL), ("R1", ALL), ("D3", ALL), ("A7", {"key"}), ("B5", ALL), ("F6", ALL), ("CA2", ALL)],
     "layout-bearing computations (size arithmetic, planner, processor/descriptor constructors) read only number / cap / extensible / type attributes, never names, comments, positions or option values; comment / newline / semicolon actions build nothing (F3); declaration order is erased by sorting on the integer field number at every order-sensitive site (A4); Alias.nbits is the target's and alias processors only delegate in all three runtimes (D5, D7, EC3); the resolved definition object is what a field stores, wherever it was declared (V1); alias transparency of the generators: for every type shape reached through an alias the optimization-mode statements and the generated accessors are the ones of the aliased type, with the alias name only where the target language needs a conversion (D2 scenarios Alias->leaf incl. the unsigned working type, D6 shapes alias(...)); a literal and a constant expression of equal value are the same to the rest of the compiler because operator precedence and associativity are the usual ones (B4); the runtimes keep nothing between fields or calls that could make the bytes depend on the numbers themselves rather than their order: no module / package / file-scope state is written (R1) and every field is processed with a fresh indexer built from its own number (D3).",
     "byte equality of two compilations.",
 ))
